@@ -21,6 +21,7 @@ type SpecEnv struct {
 	loop     *Loop
 	phiFrom  *ssa.BasicBlock
 	depth    int
+	qd       int // number of enclosing spec quantifier variables (canonical bound-variable names)
 }
 
 type specErr string
@@ -246,8 +247,49 @@ func enclosing(fr *Frame, l *Loop) *Loop {
 
 // debugLookup finds the SSA value bound to a source-level local name whose definition
 // dominates the current loop header (or any block, outside loops).
+// reachingDef resolves a source variable at the current program point: the closest definition on
+// the dominator chain, where a phi node named after the variable stands for the merge of the
+// assignments in the branches it joins.
+func (e *SpecEnv) reachingDef(name string) (Val, bool) {
+	fr := e.fr
+	for b := fr.curBlock; b != nil; b = b.Idom() {
+		for k := len(b.Instrs) - 1; k >= 0; k-- {
+			dr, ok := b.Instrs[k].(*ssa.DebugRef)
+			if !ok || debugIdent(dr) != name {
+				continue
+			}
+			if _, have := fr.vals[dr.X]; !have {
+				if _, isc := dr.X.(*ssa.Const); !isc {
+					continue
+				}
+			}
+			if dr.IsAddr {
+				return e.x.load(e.st, e.x.ptrAddr(fr, dr.X)), true
+			}
+			return e.x.valueOf(fr, dr.X), true
+		}
+		for _, ins := range b.Instrs {
+			phi, ok := ins.(*ssa.Phi)
+			if !ok {
+				break
+			}
+			if phi.Comment == name {
+				if _, have := fr.vals[phi]; have {
+					return e.x.valueOf(fr, phi), true
+				}
+			}
+		}
+	}
+	return Val{}, false
+}
+
 func (e *SpecEnv) debugLookup(name string) (Val, bool) {
 	fr := e.fr
+	if e.loop == nil && fr.curBlock != nil {
+		if v, ok := e.reachingDef(name); ok {
+			return v, true
+		}
+	}
 	var best ssa.Value
 	var bestAddr bool
 	var at *ssa.BasicBlock
@@ -341,9 +383,11 @@ func (e *SpecEnv) eval(ex Expr) Val {
 	case EQuant:
 		env := e
 		var decls []string
-		for _, qv := range n.Vars {
+		for qi, qv := range n.Vars {
 			sort, gt := specSort(x, qv.Type)
-			name := fmt.Sprintf("%s_q%d", sanitize(qv.Name), x.nextQ())
+			// canonical names (variable + nesting depth): the same clause evaluated twice yields the
+			// same text, so provers see one formula instead of two alpha-equivalent ones
+			name := fmt.Sprintf("%s_d%d", sanitize(qv.Name), e.qd+qi)
 			decls = append(decls, fmt.Sprintf("(%s %s)", name, sort))
 			if gt != nil {
 				env = env.with(qv.Name, Val{T: gt, C: []string{name}})
@@ -351,6 +395,11 @@ func (e *SpecEnv) eval(ex Expr) Val {
 				env = env.with(qv.Name, Val{Sorts: []string{sort}, C: []string{name}})
 			}
 		}
+		if env == e {
+			cp := *e
+			env = &cp
+		}
+		env.qd = e.qd + len(n.Vars)
 		body := env.eval(n.Body)
 		q := "exists"
 		if n.Forall {
